@@ -5,10 +5,10 @@ package main
 // sym.go, decided by Fourier–Motzkin elimination. No external solver.
 
 import (
-	"os"
 	"fmt"
 	"go/token"
 	"go/types"
+	"os"
 	"sort"
 	"strings"
 
@@ -23,7 +23,7 @@ type Fact struct {
 
 func (f Fact) String() string { return f.L.String() + " <= 0   [" + f.Why + "]" }
 
-func le(a, b *Lin, why string) Fact { return Fact{a.Sub(b), why} }                   // a ≤ b
+func le(a, b *Lin, why string) Fact { return Fact{a.Sub(b), why} }                  // a ≤ b
 func lt(a, b *Lin, why string) Fact { return Fact{a.Sub(b).Add(linConst(1)), why} } // a < b  (integers)
 
 // condFacts translates a branch condition into linear facts (nil when it has no linear content).
